@@ -186,3 +186,80 @@ EXTRA = {
     'C15': [(check_finalizer_scan_continues, 'R15.7')],
     'C16': [(check_purge_tables, 'R16.7')],
 }
+
+
+def check_v2_suffix_input(ctx: Ctx, rule: str) -> None:
+    """make_v2_key: the hash suffix of an over-long id is computed from the id as given (not from its character-normalised form), so that
+    long ids that differ only in replaced characters still get distinct names."""
+    repo = ctx.repo
+    f = repo.fn('conventions.StorageKeyFormingConvention.make_v2_key')
+    ctx.analysed(f)
+    params = [a.arg for a in f.params()]
+    keyp = params[1] if len(params) > 1 else None
+    calls = [c for c in calls_in(f.node) if method_call(c, 'make_suffix') is not None]
+    ctx.require_sites(rule, 'make_v2_key: suffix computation', len(calls), 1, f.loc())
+    for c in calls:
+        ok = len(c.args) == 1 and isinstance(c.args[0], ast.Name) and c.args[0].id == keyp \
+            and not any(isinstance(n, ast.Name) and n.id == keyp and isinstance(n.ctx, ast.Store) for n in walk_no_defs(f.node))
+        ctx.ob(rule, 'make_v2_key: the suffix hashes the id exactly as given (its own, never re-bound, parameter) -- distinct long ids give distinct names even when '
+               'they differ only in characters that the name part replaces', ok, loc=f.loc(c), construct=construct(f, 'flow:make_suffix(raw key)'), detail=norm(c))
+
+
+def check_no_timedelta_components(ctx: Ctx, rule: str) -> None:
+    """Durations are converted with total_seconds(): the components .seconds/.days/.microseconds wrap around (a runtime of 1 day + 2 min has
+    .seconds == 120) and must not be read."""
+    repo = ctx.repo
+    comps = ('seconds', 'microseconds', 'days')
+
+    def reads(tree):
+        return [n for n in ast.walk(tree) if isinstance(n, ast.Attribute) and n.attr in comps and isinstance(n.ctx, ast.Load)]
+    # positive fixture: the rule must see a component read when there is one
+    fixture = ast.parse('x = (now - started).seconds >= limit')
+    if len(reads(fixture)) != 1:
+        raise AnalysisError('R-timedelta: the positive fixture is not recognised')
+    bad = []
+    for f in repo.all_functions():
+        if f.module.name.startswith('kopf._kits'):
+            continue
+        for n in reads(f.node):
+            bad.append((f, n))
+    ctx.count('functions_scanned', len(repo.all_functions()))
+    ctx.ob(rule, 'no duration is taken from a timedelta component (.seconds/.days/.microseconds): limits such as timeout=T compare total_seconds(), which does not '
+           'wrap after 24 h (a handler first tried more than a day ago must still be timed out)', not bad, loc=bad[0][0].loc(bad[0][1]) if bad else 'kopf/',
+           construct='confine:timedelta-components', detail='; '.join(f'{f.short}: {norm(repo.stmt_of(f.module, n), 70)}' for f, n in bad[:3]))
+
+
+def check_429_restarts_inside_loop(ctx: Ctx, rule: str) -> None:
+    """infinite_watch: an escalated 429 is swallowed INSIDE the endless loop, so the stream is started again."""
+    repo = ctx.repo
+    f, g = cfg_of(ctx, 'watching.infinite_watch')
+    handlers = [n for n in g.nodes if n.kind == 'except' and isinstance(n.stmt, ast.ExceptHandler) and n.stmt.type is not None
+                and 'APITooManyRequestsError' in src(n.stmt.type)]
+    ctx.require_sites(rule, 'infinite_watch: handler for an escalated 429', len(handlers), 1, f.loc())
+    loops = [n for n in g.nodes if n.kind == 'loop' and isinstance(n.stmt, ast.While)]
+    for h in handlers:
+        inside = any(fr.kind == 'loop' for fr in h.frames)
+        back = any(lp in g.reach([h]) for lp in loops)
+        ctx.ob(rule, 'infinite_watch: after an escalated 429 the watch loop goes on (the handler lies inside the loop and control returns to the loop head) -- '
+               'the stream is "not allowed to fail", the served pair keeps its watch', inside and back, loc=f.loc(h.stmt),
+               construct=construct(f, 'loop:429 handled inside the loop'))
+
+
+def _c02_retry_flow(ctx: Ctx, rule: str) -> None:
+    from . import C02
+    C02.check_retry_flow(ctx, rule)
+
+
+def _c19_pause_gate(ctx: Ctx, rule: str) -> None:
+    from . import C19
+    include(ctx, C19.check_pause_gate, rule, 'C19')
+
+
+EXTRA['C11'] = [(_c02_retry_flow, 'R11.5'), (check_no_timedelta_components, 'R11.3')]
+EXTRA['C13'] = [(_c19_pause_gate, 'R13.3'), (_c09_spawn, 'R13.3')]
+EXTRA['C14'] = [(_c07_worker, 'R14.6')]
+EXTRA['C16'] = EXTRA.get('C16', []) + [(check_v2_suffix_input, 'R16.8')]
+EXTRA['C19'] = [(check_429_restarts_inside_loop, 'R19.6')]
+EXTRA['C10'] = EXTRA.get('C10', []) + [(check_no_timedelta_components, 'R10.6')]
+EXTRA['C12'] = [(check_no_timedelta_components, 'R12.6')]
+EXTRA['C02'] = EXTRA.get('C02', []) + [(check_no_timedelta_components, 'R2.14')]
